@@ -10,18 +10,18 @@ Ltac Zify.zify_post_hook ::= Z.to_euclidean_division_equations.
 (* ------------------------------------------------------------------------------------- *)
 (** * components *)
 
-(** field ranges: a prefix length of an IPv4 prefix; comparison bits LT GT EQ (the three low
-    bits - what construct_operator_flag can set) *)
-Definition fs_pfx_ok (p : option (N * N)) : bool := match p with None => true | Some p => snd p <=? 32 end.
+(** the invariant of the abstraction [op]: comparison bits LT GT EQ are the three low bits - all
+    that construct_operator_flag can set from the operator text.  (The prefix length is enforced by
+    the code: above 32, or with an address that is not IPv4, construction fails.) *)
 Definition ops_ok (ops : list op) : bool := forallb (fun o => fst o <? 8) ops.
-Definition flow_ok (f : flow) : bool :=
-  fs_pfx_ok (f_dst f) && fs_pfx_ok (f_src f) && forallb (fun p => ops_ok (snd p)) (f_ops f).
+Definition flow_ok (f : flow) : bool := forallb (fun p => ops_ok (snd p)) (f_ops f).
 
-Lemma fs_prefix_step p b rest : fs_construct_prefix p = Ok b -> snd p <= 32 ->
+Lemma fs_prefix_step p b rest : fs_construct_prefix p = Ok b ->
   step_prefix 32 (b ++ rest) = Some rest /\ wf_bytes b.
 Proof.
-  destruct p as [a l]. cbn [snd]. unfold fs_construct_prefix. intros H Hl.
-  destruct (255 <? l); [discriminate|].
+  destruct p as [a l]. unfold fs_construct_prefix. intros H.
+  destruct ((32 <? l) || (2 ^ 32 <=? a)) eqn:Hg; [discriminate|].
+  assert (Hl : l <= 32) by lia.
   assert (S : forall k, Walker.ceil8 l = N.of_nat k -> (k <= 4)%nat ->
               step_prefix 32 ((l :: firstn k (be 4 a)) ++ rest) = Some rest /\ wf_bytes (l :: firstn k (be 4 a))).
   { intros k Hk Hk4. split.
@@ -40,17 +40,17 @@ Proof.
   change (be 4 a) with (firstn 4 (be 4 a)) at 1 2. apply S; [unfold Walker.ceil8; lia | lia].
 Qed.
 
-Lemma fs_opt_prefix_step t p b : (t = 1 \/ t = 2) -> fs_opt_prefix t p = Ok b -> fs_pfx_ok p = true ->
+Lemma fs_opt_prefix_step t p b : (t = 1 \/ t = 2) -> fs_opt_prefix t p = Ok b ->
   (b = [] \/ forall rest, step_flow_comp false (b ++ rest) = Some rest) /\ wf_bytes b.
 Proof.
   intros Ht. unfold fs_opt_prefix. destruct p as [p|].
-  - intros H G. apply mbind_ok in H as (pb & Hp & H). apply mOk_inj in H. subst b.
-    cbn [fs_pfx_ok] in G. split.
+  - intros H. apply mbind_ok in H as (pb & Hp & H). apply mOk_inj in H. subst b.
+    split.
     + right. intros rest. cbn [app step_flow_comp].
       assert (E : (t =? 1) || (t =? 2) = true) by lia. rewrite E.
-      apply (fs_prefix_step p pb rest Hp). lia.
-    + apply wf_cons; split; [lia|]. apply (fs_prefix_step p pb [] Hp). lia.
-  - intros H _. apply mOk_inj in H. subst b. split; [left; reflexivity | constructor].
+      apply (fs_prefix_step p pb rest Hp).
+    + apply wf_cons; split; [lia|]. apply (fs_prefix_step p pb [] Hp).
+  - intros H. apply mOk_inj in H. subst b. split; [left; reflexivity | constructor].
 Qed.
 
 Lemma len_code_cases n lc : len_code n = Ok lc ->
@@ -168,11 +168,10 @@ Qed.
 Lemma fs_nlri_step f w rest : fs_construct_nlri f = Ok w -> flow_ok f = true ->
   step_flow false (w ++ rest) = Some rest /\ wf_bytes w /\ w <> [].
 Proof.
-  unfold fs_construct_nlri, flow_ok. intros H G.
-  apply andb_true_iff in G as [G G3]. apply andb_true_iff in G as [G1 G2].
+  unfold fs_construct_nlri, flow_ok. intros H G3.
   apply mbind_ok in H as (b1 & H1 & H). apply mbind_ok in H as (b2 & H2 & H). apply mbind_ok in H as (b3 & H3 & H).
-  destruct (fs_opt_prefix_step c_BGPNLRI_FSPEC_DST_PFIX _ _ (or_introl eq_refl) H1 G1) as [S1 W1].
-  destruct (fs_opt_prefix_step c_BGPNLRI_FSPEC_SRC_PFIX _ _ (or_intror eq_refl) H2 G2) as [S2 W2].
+  destruct (fs_opt_prefix_step c_BGPNLRI_FSPEC_DST_PFIX _ _ (or_introl eq_refl) H1) as [S1 W1].
+  destruct (fs_opt_prefix_step c_BGPNLRI_FSPEC_SRC_PFIX _ _ (or_intror eq_refl) H2) as [S2 W2].
   destruct (fs_comps_elems _ G3 fs_op_types b3 H3) as (elems & -> & He).
   { assert (B : forallb (fun t => (3 <=? t) && (t <=? 12)) fs_op_types = true) by reflexivity.
     rewrite forallb_forall in B. intros t Ht. specialize (B t Ht). lia. }
@@ -233,17 +232,15 @@ Proof.
 Qed.
 
 (* ------------------------------------------------------------------------------------- *)
-(** * the guard is needed (and an instance) *)
+(** * instances *)
 
-(** IPv4FlowSpec.construct_prefix takes the prefix length from int(text) and checks nothing:
-    192.96.3.0/33 is written as length 33 followed by four octets *)
-Definition f_len33 : flow := mk_flow (Some (3227517696, 33)) None [].
-Lemma reachfs_prefix_length_refuted : exists b,
-  reachfs_construct None [f_len33] = Ok (Some b) /\ valid_attrs cfg0 b = false.
-Proof. eexists. split; vm_compute; reflexivity. Qed.
-Lemma unreachfs_prefix_length_refuted : exists b,
-  unreachfs_construct [f_len33] = Ok (Some b) /\ valid_attrs cfg0 b = false.
-Proof. eexists. split; vm_compute; reflexivity. Qed.
+(** a prefix length above 32, or an address that is not IPv4, is a construction error (it used to
+    be written as it stood: fix: a prefix length outside the address size must be an error ...) *)
+Lemma flow_prefix_length_is_error :
+  reachfs_construct None [mk_flow (Some (3227517696, 33)) None []] = Exc /\
+  unreachfs_construct [mk_flow None (Some (3227517696, 255)) []] = Exc /\
+  reachfs_construct None [mk_flow (Some (2 ^ 125, 32)) None []] = Exc.
+Proof. vm_compute. repeat split. Qed.
 
 Definition ex_flow : flow :=
   mk_flow (Some (3227517696, 24)) (Some (167772160, 8)) [(3, [(1, 6); (1, 17)]); (5, [(3, 8080); (5, 65536)])].
@@ -277,13 +274,3 @@ Lemma mp_flow4_valid c fs : forallb flow_ok fs = true ->
   (forall nh b, reachfs_construct nh fs = Ok (Some b) -> attr_block c c_ATTR_MpReachNLRI_ID b) /\
   (forall b, unreachfs_construct fs = Ok (Some b) -> attr_block c c_ATTR_MpUnReachNLRI_ID b).
 Proof. intros H. split; intros; [eapply reachfs_block | eapply unreachfs_block]; eassumption. Qed.
-Lemma mp_prefix4_length_refuted :
-  ((exists b, reachvpn_construct false 0 0 167772161 [r_vpn4_len40] = Ok b /\ valid_attrs cfg0 b = false) /\
-   (exists b, unreachvpn_construct false [r_vpn4_len40] = Ok (Some b) /\ valid_attrs cfg0 b = false) /\
-   (exists b, reachlu_construct false 167772161 [r_lu4_len40] = Ok (Some b) /\ valid_attrs cfg0 b = false) /\
-   (exists b, unreachlu_construct false [r_lu4_len40] = Ok (Some b) /\ valid_attrs cfg0 b = false)) /\
-  (exists b, reachfs_construct None [f_len33] = Ok (Some b) /\ valid_attrs cfg0 b = false) /\
-  (exists b, unreachfs_construct [f_len33] = Ok (Some b) /\ valid_attrs cfg0 b = false).
-Proof.
-  exact (conj mp_labeled4_prefix_length_refuted (conj reachfs_prefix_length_refuted unreachfs_prefix_length_refuted)).
-Qed.
